@@ -1794,11 +1794,12 @@ func (x *Exec) onChanClauses(s *State, cv Val, v Val, site ssa.Instruction, recv
 	if !ok || c.Obj == nil || len(s.frames) == 0 {
 		return
 	}
-	ct := x.P.contractFor(s.top().fn)
+	cf := x.clauseFrame(s)
+	ct := x.P.contractFor(cf.fn)
 	if ct == nil || len(ct.OnSends) == 0 {
 		return
 	}
-	env := x.specEnvFrame(s)
+	env := x.specEnvOf(s, cf)
 	env.quiet = true
 	type upd struct {
 		name string
